@@ -57,6 +57,7 @@ func runC19(p *eng.Prog, r *eng.Report, tier string) {
 	c.r.Floor("C19.45", "tests of a local error in iterator Next methods", iteratorsKeepTheirErrors(c, "C19.45"), 1)
 	c.r.Floor("C19.46", "switches over an enumeration in its own methods", enumSwitchesComplete(c, "C19.46"), 1)
 	c.r.Floor("C19.47", "struct fields with an xml tag", noInnerXMLTargets(c, "C19.47"), 100)
+	c.r.Floor("C19.55", "xml.StartElement literals of the module", elementNamesNotFromXMLName(c, "C19.55"), 120)
 	c.r.Floor("C19.54", "structs that embed a stanza type", stanzaWrappersDecodeTheirPayloadAttrs(c, "C19.54"), 10)
 	c.r.Floor("C19.53", "functions that re-encode decoder tokens", reencodedTokensDropDeclarations(c, "C19.53", inC19), 1)
 	c.r.Floor("C19.48", "uses of xmlstream.InnerElement", innerElementAfterItsStart(c, "C19.48"), 3)
